@@ -554,7 +554,51 @@ fn cfg_from(v: &Value) -> Option<Cfg> {
     })
 }
 
+/// The `arg!` macro takes a value name as an identifier or as a string literal; the two spellings
+/// declare the same argument, so origin, values and errors agree on every line.
+fn macro_twins() -> Vec<(&'static str, clap::Arg, clap::Arg, &'static str)> {
+    vec![
+        ("--color [WHEN] + default_missing_value", clap::arg!(--color [WHEN]).default_missing_value("always"), clap::arg!(--color ["WHEN"]).default_missing_value("always"), "color"),
+        ("--color [WHEN] + default_value", clap::arg!(--color [WHEN]).default_value("auto"), clap::arg!(--color ["WHEN"]).default_value("auto"), "color"),
+        ("-c --config <FILE>", clap::arg!(-c --config <FILE>), clap::arg!(-c --config <"FILE">), "config"),
+        ("--item <ITEM>...", clap::arg!(--item <ITEM> ...), clap::arg!(--item <"ITEM"> ...), "item"),
+        ("[NAME]", clap::arg!([NAME]).default_value("dflt"), clap::arg!(["NAME"]).default_value("dflt"), "NAME"),
+        ("<NAME>", clap::arg!(<NAME>), clap::arg!(<"NAME">), "NAME"),
+    ]
+}
+
+fn check_macro_twin(i: usize, line: usize) -> Vec<(String, String)> {
+    let (name, a, b, id) = macro_twins().into_iter().nth(i).unwrap();
+    let long = a.get_long().map(|l| format!("--{}", l));
+    let lines: Vec<Vec<String>> = match &long {
+        Some(l) => vec![vec![], vec![l.clone()], vec![l.clone(), "x".into()], vec![format!("{}=x", l)], vec![l.clone(), "x".into(), l.clone(), "y".into()]],
+        None => vec![vec![], vec!["x".into()], vec!["x".into(), "y".into()]],
+    };
+    let Some(argv) = lines.get(line) else { return vec![] };
+    let run = |arg: clap::Arg| -> String {
+        let mut full = vec!["prog".to_string()];
+        full.extend(argv.iter().cloned());
+        match clap::Command::new("prog").arg(arg).try_get_matches_from(full) {
+            Ok(m) => format!("ok source={:?} values={:?}", m.value_source(id), m.get_raw(id).map(|v| v.map(|x| x.to_string_lossy().to_string()).collect::<Vec<_>>())),
+            Err(e) => format!("err {:?}", e.kind()),
+        }
+    };
+    let (ra, rb) = (run(a), run(b));
+    if ra != rb {
+        vec![("the two spellings of a value name in `arg!` declare different arguments".into(), format!("{} line {:?}: identifier form -> {}; string-literal form -> {}", name, argv, ra, rb))]
+    } else {
+        vec![]
+    }
+}
+
 fn recheck(case: &Value) -> Vec<Violation> {
+    if case["part"] == "macro-twins" {
+        let (i, l) = (case["twin"].as_u64().unwrap_or(0) as usize, case["line"].as_u64().unwrap_or(0) as usize);
+        return match catch(|| check_macro_twin(i, l)) {
+            Ok(b) => b.into_iter().map(|(cc, w)| Violation { cause: cc, order: (0, 0), what: w, case: case.clone() }).collect(),
+            Err(p) => vec![Violation { cause: p.key(), order: (0, 0), what: p.show(), case: case.clone() }],
+        };
+    }
     let Some(c) = cfg_from(&case["cfg"]) else { return vec![] };
     let seq: Vec<Tok> = case["sequence"].as_array().map(|a| a.iter().filter_map(|s| tok_parse(s.as_str().unwrap_or(""))).collect()).unwrap_or_default();
     let spec = c.spec();
@@ -645,5 +689,26 @@ fn main() {
         rep.merge(&h);
     });
     rep.set("configurations_rejected_by_validity_gate", json!(rejected.load(std::sync::atomic::Ordering::Relaxed)));
+    {
+        let mut h = Hist::new();
+        for i in 0..macro_twins().len() {
+            for line in 0..5usize {
+                h.evaluations += 1;
+                h.states += 1;
+                h.transitions += 1;
+                h.validated += 1;
+                let mk = || json!({"part": "macro-twins", "twin": i, "line": line});
+                match catch(|| check_macro_twin(i, line)) {
+                    Ok(bad) => {
+                        for (c, w) in bad {
+                            rep.violation(Violation { cause: c.clone(), order: (1 << 40, (i * 10 + line) as u64), what: format!("{}: {}", c, w), case: mk() });
+                        }
+                    }
+                    Err(p) => rep.violation(Violation { cause: p.key(), order: (1 << 40, 0), what: p.show(), case: mk() }),
+                }
+            }
+        }
+        rep.merge(&h);
+    }
     rep.finish(&recheck);
 }
